@@ -238,13 +238,42 @@ func refDrop(s *Step, r *Rec, env *refEnv) bool {
 // "maxLen: max search length in bytes"; the label is "always trimmed"; on success the source loses the label and both
 // boundaries and the destination receives the label; on failure nothing changes.
 
-// refClassHas interprets "*" (any byte) or a bracket expression: optional leading ^ (negation), ranges x-y, a hyphen
-// first or last stands for itself.
+// refClassUnescape removes the documented escapes of the pattern language from the inside of a bracket expression
+// ("note brackets and asterisks need to be escaped": \[ \] \* stand for the bare character). No other escape is
+// generated inside a class (the documentation names none).
+func refClassUnescape(body string) string {
+	out := make([]byte, 0, len(body))
+	for i := 0; i < len(body); i++ {
+		if body[i] == '\\' && i+1 < len(body) && (body[i+1] == '[' || body[i+1] == ']' || body[i+1] == '*') {
+			i++
+		}
+		out = append(out, body[i])
+	}
+	return string(out)
+}
+
+// refClassTables memoises the member table of a class (a pure function of the class text).
+var refClassTables = map[string]*[256]bool{}
+
 func refClassHas(class string, c byte) bool {
 	if class == "*" {
 		return true
 	}
-	body := class[1 : len(class)-1]
+	t := refClassTables[class]
+	if t == nil {
+		t = &[256]bool{}
+		for b := 0; b < 256; b++ {
+			t[b] = refClassHasSlow(class, byte(b))
+		}
+		refClassTables[class] = t
+	}
+	return t[c]
+}
+
+// refClassHasSlow interprets a bracket expression: escapes removed first, optional leading ^ (negation), ranges x-y,
+// a hyphen first or last stands for itself.
+func refClassHasSlow(class string, c byte) bool {
+	body := refClassUnescape(class[1 : len(class)-1])
 	neg := false
 	if strings.HasPrefix(body, "^") {
 		neg = true
